@@ -52,8 +52,26 @@ fn show_bound(b: Option<usize>) -> String {
     b.map_or("-".to_string(), |v| v.to_string())
 }
 
+/// PLTE (12 + 3 per entry) and tRNS (12 + one byte per entry up to the last one that is not opaque; 2 bytes for a gray
+/// key, 6 for an RGB key) as the PNG specification lays them out
+fn spec_key_chunks_size(img: &crate::img::HImg) -> usize {
+    match img.ct {
+        3 => {
+            let plte = 12 + 3 * img.palette.len();
+            match img.palette.iter().rposition(|p| p[3] != 255) {
+                Some(k) => plte + 12 + k + 1,
+                None => plte,
+            }
+        }
+        0 => if img.trns.is_some() { 12 + 2 } else { 0 },
+        2 => if img.trns.is_some() { 12 + 6 } else { 0 },
+        _ => 0,
+    }
+}
+
 #[derive(Default)]
 struct EvalHist {
+    key_size_by_spec: BTreeMap<usize, usize>,
     last_read: BTreeMap<(usize, u8), Option<usize>>,
     deflater: Option<Deflaters>,
     tokens: Vec<String>,
@@ -78,8 +96,12 @@ pub fn histories(log: &[(std::thread::ThreadId, Event)], st: &mut Stats) -> Vec<
     let mut last_collected: std::collections::HashMap<std::thread::ThreadId, Option<Key>> = std::collections::HashMap::new();
     for (tid, e) in log {
         match e {
-            Event::Submit { eval, deflater, .. } => {
-                evals.entry(*eval).or_default().deflater = Some(*deflater);
+            Event::Submit { eval, deflater, nth, image, .. } => {
+                let h = evals.entry(*eval).or_default();
+                h.deflater = Some(*deflater);
+                // the size of the chunks a candidate needs besides IDAT, computed here from its header (what the file
+                // will really contain): the ranking adds it to every trial's IDAT length
+                h.key_size_by_spec.insert(*nth, spec_key_chunks_size(&crate::img::HImg::from_oxi(image)));
             }
             Event::ReadBound { eval, nth, filter, bound } if *nth != usize::MAX => {
                 let h = evals.entry(*eval).or_default();
@@ -127,6 +149,17 @@ pub fn histories(log: &[(std::thread::ThreadId, Event)], st: &mut Stats) -> Vec<
                     (None, Some(t)) => t,
                     (None, None) => usize::MAX / 4,
                 };
+                if let Some(want) = h.key_size_by_spec.get(nth) {
+                    if want != key_size {
+                        st.fail(
+                            "key-chunk-size",
+                            format!("trial {}:{} is ranked with {} bytes of PLTE / tRNS, the chunks this image needs take {}", nth, *filter as u8, key_size, want),
+                            "{}".into(),
+                        );
+                    } else {
+                        st.count("key_chunk_size_ok");
+                    }
+                }
                 h.finished.insert((*nth, *filter as u8), (idat, *key_size, *raw_len, idat_len.is_some()));
                 if idat_len.is_none() {
                     h.tokens.push(format!("F:{}:{}:{}:{}:{}:0", nth, *filter as u8, idat, key_size, raw_len));
